@@ -19,7 +19,7 @@ import (
 type lifeStream struct{ groups, lost int }
 
 func (s *lifeStream) ReassemblyComplete(msgs []*auparse.AuditMessage) { s.groups++ }
-func (s *lifeStream) EventsLost(n int)                               { s.lost++ }
+func (s *lifeStream) EventsLost(n int)                                { s.lost++ }
 
 func lifeOf(t int) (life int) {
 	// journalled as the history it is, so that a call that never returns is reported with a replayable input
